@@ -24,6 +24,7 @@ class Ctx:
         self.assumptions = []
         self.steps = {}               # free-form per-step record copied into coverage
         self._distinct = set()
+        self.classes = {}             # input-class tag (INPUT-CLASSES.md K1..K10) -> executed cases, measured
         self._known = self._load_known()
         self.quick = tier == "quick"
 
@@ -91,6 +92,10 @@ class Ctx:
         if key is not None and nontrivial:
             self._distinct.add(key if isinstance(key, (str, int, tuple)) else json.dumps(key, sort_keys=True, default=str))
 
+    def cls(self, tag, n=1):
+        """count an executed case under an input-class tag of INPUT-CLASSES.md (e.g. 'K1:wide', 'K6:nproc3')"""
+        self.classes[tag] = self.classes.get(tag, 0) + n
+
     def sample(self, obj, limit=6):
         if len(self.cov["samples"]) < limit:
             self.cov["samples"].append(obj)
@@ -110,6 +115,8 @@ class Ctx:
         cov = dict(self.cov)
         cov["distinct_nontrivial"] = len(self._distinct)
         cov["steps"] = self.steps
+        if self.classes:
+            cov["classes"] = dict(sorted(self.classes.items()))
         if self.known_hits:
             cov["known_findings_hit"] = sorted(self.known_hits)
         if self.drift:
